@@ -300,6 +300,9 @@ var c03Locs = map[string]bool{"query": true, "header": true, "path": true, "form
 var c03Scalars = map[string]bool{"string": true, "integer": true, "number": true, "boolean": true}
 
 func c03Exec(in []string) (out []string) {
+	if len(in) > 0 && in[0] == "V" {
+		return c03ExecV(in) // runtime.ReadSingleValue / ReadCollectionValue (c03v.go)
+	}
 	if len(in) > 0 && (in[0] == "M" || in[0] == "MB") {
 		return c03ExecMulti(in) // several parameters of one operation (c03m.go)
 	}
@@ -867,6 +870,8 @@ func c03Gen(r *proto.Rng, n int, tier string, emit func(in ...string)) {
 		c03GenStruct(r, n*2/5, tier, emit)
 		// several declared parameters of one operation against one request (c03m.go)
 		c03GenMulti(r, n/4, tier, emit)
+		// the exported readers of request.go (c03v.go)
+		c03GenV(r, n/20, emit)
 	}()
 	c03Table(emit)
 	perDecl := 8
